@@ -94,6 +94,7 @@ type state struct {
 	specials    map[int]bitcoin.Hash32
 	fixture     []*wire.BlockHeader
 	genesisID   int
+	dumpFrom    int // lowest height listed by dump (above 0 only after MockLatest)
 	genesisHash bitcoin.Hash32
 }
 
@@ -324,7 +325,7 @@ func (s *state) dump() string {
 	}
 	top := s.repo.Height() + 1
 	var at []string
-	for k := 0; k <= top; k++ {
+	for k := s.dumpFrom; k <= top; k++ {
 		hs, err := s.repo.Hash(ctx, k)
 		if err != nil {
 			at = append(at, fmt.Sprintf("%d:%s", k, readErr(err)))
@@ -352,7 +353,7 @@ func (s *state) dump() string {
 	if th >= 3 {
 		lo = th - 3
 	}
-	ranges := []string{rng(0, top+2), rng(lo, 10), rng(th/2, 5)}
+	ranges := []string{rng(s.dumpFrom, top+2-s.dumpFrom), rng(lo, 10), rng(s.dumpFrom+(th-s.dumpFrom)/2, 5)}
 	return fmt.Sprintf("%s hh=[%s] ch=[%s] gh=[%s] ph=[%s] at=[%s] rg=[%s]", s.tip(), strings.Join(hh, ","),
 		strings.Join(ch, ","), strings.Join(gh, ","), strings.Join(ph, ","), strings.Join(at, ","), strings.Join(ranges, ";"))
 }
@@ -444,6 +445,7 @@ func (s *state) step(line string) string {
 		s.repo = s.newRepo()
 		s.repo.InitializeWithGenesis()
 		s.genesisID = 0
+		s.dumpFrom = 0
 		s.genesisHash = s.repo.LastHash()
 		s.ids[s.genesisHash] = 0
 		s.subs = []<-chan *wire.BlockHeader{s.repo.GetNewHeadersAvailableChannel()}
@@ -508,6 +510,7 @@ func (s *state) step(line string) string {
 			break
 		}
 		s.repo.MockLatest(ctx, h, int(height), work)
+		s.dumpFrom = int(height) - 1
 		return op + " => " + s.tip()
 	case "sub":
 		id, ok := a.Int("id")
